@@ -28,6 +28,7 @@ package keeper
 //@   let b := bridgeId
 //@   let cfg := val(BridgeConfigs[b])
 //@   ensures err == nil ==> BridgeConfigs[b] != None
+//@   ensures BridgeConfigs[b] != None ==> err == nil                                               // A-STORE: a walk over a well-formed store does not fail
 //@   ensures err == nil && outputIndex != 0 ==> OutputProposals[(b, outputIndex)] == Some(outputProposal) && isFinal(now, outputProposal.L1BlockTime, cfg.FinalizationPeriod)   // C05: last_finalized_is_final
 //@   ensures err == nil ==> forall j uint64 :: j > outputIndex && OutputProposals[(b, j)] != None ==> !isFinal(now, val(OutputProposals[(b, j)]).L1BlockTime, cfg.FinalizationPeriod)   // C05: last_finalized_is_highest
 //@   walk 0 invariant outputIndex == 0
@@ -142,6 +143,8 @@ package keeper
 //@   ensures err == nil ==> old(BridgeConfigs)[b] != None && (req.Authority == ms.authority || req.Authority == cfg.Proposer)    // C12: gov_or_proposer
 //@   ensures err == nil ==> BridgeConfigs[b] != None && val(BridgeConfigs[b]).Proposer == req.NewProposer                        // C12: takes_effect
 //@   ensures err == nil ==> val(BridgeConfigs[b]).FinalizationPeriod == cfg.FinalizationPeriod && val(BridgeConfigs[b]).Challenger == cfg.Challenger   // C05: period_unchanged
+//@   ensures old(BridgeConfigs)[b] != None && (req.Authority == ms.authority || req.Authority == cfg.Proposer) && addrOK(1, req.Authority) && addrOK(1, req.NewProposer) && b != 0 && !$hookFailed
+//@        && addrOK(1, cfg.Challenger) && addrOK(1, cfg.Proposer) && cfg.BatchInfo.ChainType != 0 && len(cfg.BatchInfo.Submitter) > 0 && cfg.FinalizationPeriod > 0 && cfg.SubmissionInterval != 0 && cfg.SubmissionStartHeight != 0 ==> err == nil   // C12: entitled_signer_is_never_rejected (INV_CFG: stored configs passed Validate)
 //@   assigns BridgeConfigs[b], perm.admin, events
 
 //@ func (MsgServer) UpdateChallenger
@@ -152,6 +155,8 @@ package keeper
 //@   ensures err == nil ==> val(BridgeConfigs[b]).FinalizationPeriod == cfg.FinalizationPeriod && val(BridgeConfigs[b]).Proposer == cfg.Proposer      // C05: period_unchanged
 //@   ensures $hookFailed ==> err != nil                                                           // C19: hook_failure_fails_update
 //@   ensures err == nil ==> $hookCalls == 1 && $hookBridge == b && $hookCfg == val(BridgeConfigs[b]) && $hookCfg.Challenger == req.Challenger && $hookCfg.Metadata == cfg.Metadata   // C19: hook_sees_new_challenger
+//@   ensures old(BridgeConfigs)[b] != None && (req.Authority == ms.authority || req.Authority == cfg.Challenger) && addrOK(1, req.Authority) && addrOK(1, req.Challenger) && b != 0 && !$hookFailed
+//@        && addrOK(1, cfg.Challenger) && addrOK(1, cfg.Proposer) && cfg.BatchInfo.ChainType != 0 && len(cfg.BatchInfo.Submitter) > 0 && cfg.FinalizationPeriod > 0 && cfg.SubmissionInterval != 0 && cfg.SubmissionStartHeight != 0 ==> err == nil   // C12: entitled_signer_is_never_rejected (INV_CFG: stored configs passed Validate)
 //@   assigns BridgeConfigs[b], perm.admin, events
 
 //@ func (MsgServer) UpdateBatchInfo
